@@ -70,6 +70,8 @@ func (r *router) startQuicServer(cfg *ServerConfig) (*quicServer, error) {
 	s := &quicServer{
 		r:           r,
 		l:           l,
+		t:           qt,
+		uc:          uc,
 		idleTimeout: idleTimeout,
 		logger:      r.subLoggerForServer("server_quic", cfg.Tag),
 	}
@@ -89,6 +91,8 @@ func (r *router) startQuicServer(cfg *ServerConfig) (*quicServer, error) {
 type quicServer struct {
 	r           *router
 	l           *quic.Listener
+	t           *quic.Transport // owner of l
+	uc          net.PacketConn  // socket of t, t will not close it
 	idleTimeout time.Duration
 	logger      *zerolog.Logger
 
@@ -190,6 +194,13 @@ func (s *quicServer) Close() error {
 	s.closeOnce.Do(func() {
 		s.closed.Store(true)
 		s.l.Close()
+		// Closing the listener does not close its transport and the socket.
+		if s.t != nil {
+			s.t.Close()
+		}
+		if s.uc != nil {
+			s.uc.Close()
+		}
 	})
 	return nil
 }
